@@ -413,6 +413,35 @@ class AsyncRun:
                 out.append(rec.sid)
         return out
 
+    def hop_forms(self, call):
+        """C11 on the ledger, for EVERY transmission of the call's request (a transparent re-send
+        included): a forwarding proxy is given the absolute URL, an origin (direct or through a tunnel)
+        the origin-form target - read from the request line the peer's own parser saw."""
+        if "target" in (call.extensions or {}) or not isinstance(call.url, str):
+            return "ok"
+        scheme, _, rest = call.url.partition("://")
+        hostport, _, path = rest.partition("/")
+        path = "/" + path
+        proxy = self.pool_kwargs.get("proxy")
+        forwarded = proxy is not None and proxy.url.scheme in (b"http", b"https") and scheme == "http"
+        t = call.tok.encode()
+        for rec in self.net.streams:
+            peer, depth = rec.peer, 0
+            while peer is not None:
+                for h in getattr(peer, "heads", []):
+                    if getattr(h, "framing", None) == "h2" or h.header(b"x-tok") != t or h.method == b"CONNECT":
+                        continue
+                    tgt = (h.target or b"").decode("latin1")
+                    if forwarded and depth == 0:
+                        host = hostport if ":" in hostport else hostport + ":80"
+                        if tgt not in (call.url, f"{scheme}://{host}{path}"):
+                            return "wrong-target-for-proxy:" + tgt[:60]
+                    elif tgt != path:
+                        return "wrong-target-for-origin:" + tgt[:60]
+                peer = getattr(peer, "inner", None)
+                depth += 1
+        return "ok"
+
     def route_of(self, call):
         """C10 on the ledger (direct connections): the request went to a stream established to
         exactly its origin's host and port, TLS-wrapped iff the scheme is secure."""
@@ -420,6 +449,9 @@ class AsyncRun:
             o = make_origin(ind_origin(call.url))
         except Exception:
             return "ok"
+        hf = self.hop_forms(call)
+        if hf != "ok":
+            return hf
         proxy = self.pool_kwargs.get("proxy")
         if proxy is not None:
             return self._route_via_proxy(call, o, proxy)
